@@ -1565,6 +1565,18 @@ val script_join : n list list -> n list
 val compile_script :
   n list -> bool -> (n list * n list) list -> n list list -> n list option
 
+val is_param : n -> bool
+
+val sgr_tail : n list -> n list option
+
+val strip_f : nat -> n list -> n list
+
+val strip_sgr : n list -> n list
+
+val sgr_text_f : nat -> n list -> bool
+
+val sgr_text : n list -> bool
+
 val make_exp : bool -> bool -> (nat -> bool) -> nat exp
 
 val exp_opt : nat exp -> bool
